@@ -4,7 +4,7 @@ skeleton as StepA.lean; see notes/areas/ocache.md) -/
 namespace AnySync.OCache
 
 attribute [local simp] upd State.setThr State.setE State.setI State.goto State.finish State.panic
-  markStarted_pc markStarted_op markStarted_todo Pc.loaderOf Pc.closerOf Pc.holds Entry.inMapOf
+  markStarted_pc markStarted_op markStarted_todo Pc.loaderOf Pc.closerOf Pc.holds Pc.rmRef Entry.inMapOf
 
 @[local simp] theorem loaded_iff (x : IStatus) : x.loaded = true ↔ x = .live ∨ x = .closing ∨ x = .closed := by
   cases x <;> simp [IStatus.loaded]
@@ -52,7 +52,7 @@ theorem markStarted_of_started {s : State} {th : Thread} (h : th.started = true)
 set_option hygiene false in
 /-- facts about the stepping thread from all layers -/
 local macro "thr_facts" : tactic => `(tactic|
-  (obtain ⟨hb1, hb2, hb3, hb4, hb5⟩ := hB.thr t ht
+  (obtain ⟨hb1, hb2, hb3, hb4, hb6, hb5, hb7⟩ := hB.thr t ht
    obtain ⟨hc1, hc2, hc3, hc4, hc5⟩ := hC.thr t ht
    simp only [loaded_iff] at hb2 hb3
    have hst := stale_started hC ht
@@ -66,6 +66,10 @@ local macro "open_step" : tactic => `(tactic|
    have hcl0 := congrArg Pc.closerOf hpc
    have hld0 := congrArg Pc.loaderOf hpc
    have hhold0 := congrArg Pc.holds hpc
+   have hrm0 := congrArg Pc.rmRef hpc
+   generalize hrm : (s.thr t).pc.rmRef = rm at hrm0
+   simp only [Pc.rmRef] at hrm0
+   subst hrm0
    generalize hcl : (s.thr t).pc.closerOf = cl at hcl0
    generalize hld : (s.thr t).pc.loaderOf = ld at hld0
    generalize hhold : (s.thr t).pc.holds = hd at hhold0
@@ -133,6 +137,7 @@ local macro "frameB" r0:term "," i0:term : tactic => `(tactic|
    case hIB0 => intro hr; first | vac | ((try simp at hr); constructor <;> simp <;> grind)
    case hOwn => intro i hi hne hal hent hr0 hvp hm; simp at hal hvp hm ⊢ <;> grind
    case hLoaded => intro hr; first | vac | ((try simp at hr); simp <;> grind)
+   case hValKeep => intro hr hv; first | vac | ((try simp at hr); simp at hv ⊢ <;> grind)
    case hPendKeep => intro hr hp hldr; first | vac | ((try simp at hr); simp at hp hldr ⊢ <;> grind)
    case hTB => constructor <;> simp <;> grind))
 
@@ -386,6 +391,8 @@ theorem c_setClosingWait (s s' : State) (t : Tid) (hint : Option Id) (r : Ref)
     rcases hpc with h | ⟨g, h⟩ <;> rw [h] <;> rfl
   have hhold : (s.thr t).pc.holds = none := by
     rcases hpc with h | ⟨g, h⟩ <;> rw [h] <;> rfl
+  have hrm : (s.thr t).pc.rmRef = some r := by
+    rcases hpc with h | ⟨g, h⟩ <;> rw [h] <;> rfl
   have hnd : ∀ res, (s.thr t).pc ≠ .done res := by
     intro res; rcases hpc with h | ⟨g, h⟩ <;> rw [h] <;> simp
   have hnc : ∀ r i ab, (s.thr t).pc ≠ .loadCommit r i ab := by
@@ -483,6 +490,7 @@ theorem c_closeCollect_core (s s' : State) (t : Tid) (hint : Option Id) (th0 : T
   have hcl : (s.thr t).pc.closerOf = none := by rw [hpc]; rfl
   have hld : (s.thr t).pc.loaderOf = none := by rw [hpc]; rfl
   have hhold : (s.thr t).pc.holds = none := by rw [hpc]; rfl
+  have hrm : (s.thr t).pc.rmRef = none := by rw [hpc]; rfl
   thr_facts
   have hmr : ∀ r, r ∈ th0.todo ↔ (r < s.nHeap ∧ s.map (s.heap r).id = some r) := by
     intro r; rw [htd r]; exact mem_mapRefs
@@ -516,6 +524,10 @@ local macro "open_env" : tactic => `(tactic|
    have hcl0 := congrArg Pc.closerOf hpc
    have hld0 := congrArg Pc.loaderOf hpc
    have hhold0 := congrArg Pc.holds hpc
+   have hrm0 := congrArg Pc.rmRef hpc
+   generalize hrm : (s.thr t).pc.rmRef = rm at hrm0
+   simp only [Pc.rmRef] at hrm0
+   subst hrm0
    generalize hcl : (s.thr t).pc.closerOf = cl at hcl0
    generalize hld : (s.thr t).pc.loaderOf = ld at hld0
    generalize hhold : (s.thr t).pc.holds = hd at hhold0
@@ -559,6 +571,10 @@ local macro "closer_pre" : tactic => `(tactic|
    have hcl : (s.thr t).pc.closerOf = some r := by rcases hpc with h | h <;> rw [h] <;> rfl
    have hld : (s.thr t).pc.loaderOf = none := by rcases hpc with h | h <;> rw [h] <;> rfl
    have hhold : (s.thr t).pc.holds = none := by rcases hpc with h | h <;> rw [h] <;> rfl
+   have hrm : (s.thr t).pc.rmRef = some r ∨ (s.thr t).pc = .inTry r i := by
+     rcases hpc with h | h
+     · left; rw [h]; rfl
+     · right; exact h
    have hnd : ∀ res, (s.thr t).pc ≠ .done res := by
      intro res; rcases hpc with h | h <;> rw [h] <;> simp
    have hnc : ∀ r i ab, (s.thr t).pc ≠ .loadCommit r i ab := by
